@@ -45,10 +45,12 @@ Is(e) == l <= Len(Trace) /\ Line.ev = e
 Step == l' = l + 1 /\ run' = run
 Same == pend' = pend
 Begun == pend' = [pend EXCEPT ![Line.k] = last'.res]
+\* enqueue and remove run under q.mu: none can start on a queue while a remove call on it has not returned
+Free == pend[Line.k] = -1
 IdsLogged == QIds(queue'[Line.k]) = AsSeq(Line.ids)
 
 TrEnq ==
-  /\ Is("enq") /\ Step /\ Same
+  /\ Is("enq") /\ Step /\ Same /\ Free
   /\ Enq(Line.p, Line.k)
   /\ last'.id = Line.id /\ last'.res = Line.found
   /\ IdsLogged
@@ -59,13 +61,13 @@ TrGrant ==
   /\ cur[Line.p] = Line.id /\ key[Line.p] = Line.k
 
 TrUnlock ==
-  /\ Is("rem") /\ Line.cause = "unlock" /\ Step
+  /\ Is("rem") /\ Line.cause = "unlock" /\ Step /\ Free
   /\ \E p \in (IF Line.p = "" THEN Procs ELSE {Line.p}) : Unlock(p, Line.k, Line.id)
   /\ Begun
 
 \* the watchdog's remove: the TTL of a live grant fires, or the grant is gone already (nothing happens)
 TrTtl ==
-  /\ Is("rem") /\ Line.cause = "ttl" /\ Step
+  /\ Is("rem") /\ Line.cause = "ttl" /\ Step /\ Free
   /\ IF \E i \in DOMAIN queue[Line.k] : queue[Line.k][i].id = Line.id
        THEN /\ \E p \in Procs : cur[p] = Line.id /\ key[p] = Line.k /\ Expire(p)
             /\ Begun
@@ -86,7 +88,7 @@ TrWdExit ==
   /\ WdExit(Line.id)
 
 TrAbort ==
-  /\ Is("rem") /\ Line.cause = "cancel" /\ Step
+  /\ Is("rem") /\ Line.cause = "cancel" /\ Step /\ Free
   /\ cur[Line.p] = Line.id /\ key[Line.p] = Line.k
   /\ AbortBody(Line.p)
   /\ Begun
